@@ -10,14 +10,33 @@ Setting of every theorem: two tables `a b : Raw` satisfying the lawful invariant
 (the hypothesis is the invariant, not a history: any layout, capacity, tombstones), an arbitrary
 hash function `H`, a lawful environment (`Hash = H`, `Eq` = equality of keys), either scanner
 (`CfgOk cfg`). `keys t` are the stored keys in bucket order; the target set `self` is `w.t`.
-The probe-sequence hypothesis of the underlying lemmas is discharged here with `probe_covers`.
+The probe-sequence hypothesis of the underlying lemmas is discharged here with `probe_covers`, the
+growth hypothesis `GrowthOk` of `SetSpec.lean` with `reserve_invL` (`GrowLawful.lean`) and
+`reserve_spec` (`ApiGrow.lean`), see `growth_layer_ok`. `LayoutOk` ("the layout of the table's own
+block is computable", true of every table the allocator produced) is the side condition under which
+the growth layer is proved; operations that may grow carry it.
 -/
 import Hb.Proofs.SetSpec
 import Hb.Proofs.Probe
+import Hb.Proofs.ApiGrow
+import Hb.Proofs.GrowLawful
 namespace Hb.C07
 open Hb
 
 variable {cfg : Cfg} {env : Env} {H : Nat → Nat}
+
+/-! ### the growth layer meets what the set layer needs from it -/
+
+/-- `reserve(n)`, whenever it returns: `InvL` and `LayoutOk` hold again, same contents up to order,
+    room for `n` more elements. For every lawful environment (the allocator may refuse). -/
+theorem growth_layer_ok (hc : CfgOk cfg) (hl : Lawful env H) : GrowthOk cfg env H := by
+  intro n w w1 h hlay hr
+  have hp := probe_covers cfg hc.spec.width
+  have h1 := reserve_invL hc hp env H hl n w w1 h hlay hr
+  have h2 := reserve_spec hc hp env n w ⟨h.toInv, hlay⟩
+  rw [hr] at h2
+  obtain ⟨a1, _, a3, _, a5, _⟩ := h2
+  exact ⟨h1, a1.2, a3, a5⟩
 
 /-! ### look-up in the other operand, iteration order -/
 
@@ -191,36 +210,33 @@ theorem sub_assign_exact (hc : CfgOk cfg) (hl : Lawful env H) {a b : Raw} (ha : 
     · rintro ⟨⟨x, hx, rfl⟩, hp⟩; exact ⟨x, hx, hp, rfl⟩
   · exact Or.inr h2
 
-/-- `a |= &b`, given the growth layer (`GrowthOk`: `reserve` preserves `InvL` and the contents):
-    whenever it returns, `a` keeps all its objects and its key set is the union. -/
-theorem bitor_assign_exact_of_growth (hc : CfgOk cfg) (hl : SetLawful env H)
-    (hres : GrowthOk cfg env H) {a b : Raw} (ha : InvL cfg H a) (hlay : a.LayoutOk cfg)
+/-- `a |= &b`: whenever it returns (the allocator may refuse), `a` keeps all its objects and its key set is the union. -/
+theorem bitor_assign_exact (hc : CfgOk cfg) (hl : SetLawful env H) {a b : Raw} (ha : InvL cfg H a) (hlay : a.LayoutOk cfg)
     (hb : InvL cfg H b) (w w' : World)
     (hr : Set.bitorAssign cfg env b { w with t := a } = .ok w') :
     InvL cfg H w'.t ∧ (∀ x, x ∈ a.elems → x ∈ w'.t.elems) ∧
       (∀ k, k ∈ keys w'.t ↔ k ∈ keys a ∨ k ∈ keys b) ∧ w'.t.LayoutOk cfg :=
-  bitorAssign_spec_of_growth hc (probe_covers cfg hc.spec.width) hl hres { w with t := a } w' ha hlay
+  bitorAssign_spec_of_growth hc (probe_covers cfg hc.spec.width) hl (growth_layer_ok hc hl.toLawful)
+    { w with t := a } w' ha hlay
     hb hr
 
-/-- `a ^= &b`, given the growth layer: whenever it returns, the key set is the symmetric
-    difference. -/
-theorem bitxor_assign_exact_of_growth (hc : CfgOk cfg) (hl : SetLawful env H)
-    (hres : GrowthOk cfg env H) {a b : Raw} (ha : InvL cfg H a) (hlay : a.LayoutOk cfg)
+/-- `a ^= &b`: whenever it returns, the key set is the symmetric difference. -/
+theorem bitxor_assign_exact (hc : CfgOk cfg) (hl : SetLawful env H) {a b : Raw} (ha : InvL cfg H a) (hlay : a.LayoutOk cfg)
     (hb : InvL cfg H b) (w w' : World)
     (hr : Set.bitxorAssign cfg env b { w with t := a } = .ok w') :
     InvL cfg H w'.t ∧
       (∀ k, k ∈ keys w'.t ↔ (k ∈ keys a ∧ k ∉ keys b) ∨ (k ∉ keys a ∧ k ∈ keys b)) ∧
       w'.t.LayoutOk cfg :=
-  bitxorAssign_spec_of_growth hc (probe_covers cfg hc.spec.width) hl hres { w with t := a } w' ha hlay
+  bitxorAssign_spec_of_growth hc (probe_covers cfg hc.spec.width) hl (growth_layer_ok hc hl.toLawful)
+    { w with t := a } w' ha hlay
     hb hr
 
 /-! ### operator forms that build a new set (`&a | &b`, `&`, `^`, `-`) agree with the lazy forms -/
 
-/-- `&a | &b`, `&a & &b`, `&a ^ &b`, `&a - &b` (`iterator.cloned().collect()`), given the growth
-    layer: whenever they return, the new set satisfies `InvL`, `a` is untouched and the new key set
+/-- `&a | &b`, `&a & &b`, `&a ^ &b`, `&a - &b` (`iterator.cloned().collect()`): whenever they return
+    (the allocator may refuse), the new set satisfies `InvL`, `a` is untouched and the new key set
     is the union / intersection / symmetric difference / difference. -/
-theorem operator_forms_exact_of_growth (hc : CfgOk cfg) (hl : SetLawful env H)
-    (hres : GrowthOk cfg env H) {a b : Raw} (ha : InvL cfg H a) (hb : InvL cfg H b) (w : World)
+theorem operator_forms_exact (hc : CfgOk cfg) (hl : SetLawful env H) {a b : Raw} (ha : InvL cfg H a) (hb : InvL cfg H b) (w : World)
     (r : Raw) (w' : World) :
     (Set.bitor cfg env b { w with t := a } = .ok (r, w') →
       InvL cfg H r ∧ w'.t = a ∧ ∀ k, k ∈ keys r ↔ k ∈ keys a ∨ k ∈ keys b) ∧
@@ -231,10 +247,10 @@ theorem operator_forms_exact_of_growth (hc : CfgOk cfg) (hl : SetLawful env H)
         ∀ k, k ∈ keys r ↔ (k ∈ keys a ∧ k ∉ keys b) ∨ (k ∈ keys b ∧ k ∉ keys a)) ∧
     (Set.sub cfg env b { w with t := a } = .ok (r, w') →
       InvL cfg H r ∧ w'.t = a ∧ ∀ k, k ∈ keys r ↔ k ∈ keys a ∧ k ∉ keys b) :=
-  ⟨bitor_spec_of_growth hc (probe_covers cfg hc.spec.width) hl hres { w with t := a } ha hb,
-    bitand_spec_of_growth hc (probe_covers cfg hc.spec.width) hl hres { w with t := a } ha hb,
-    bitxor_spec_of_growth hc (probe_covers cfg hc.spec.width) hl hres { w with t := a } ha hb,
-    sub_spec_of_growth hc (probe_covers cfg hc.spec.width) hl hres { w with t := a } ha hb⟩
+  ⟨bitor_spec_of_growth hc (probe_covers cfg hc.spec.width) hl (growth_layer_ok hc hl.toLawful) { w with t := a } ha hb,
+    bitand_spec_of_growth hc (probe_covers cfg hc.spec.width) hl (growth_layer_ok hc hl.toLawful) { w with t := a } ha hb,
+    bitxor_spec_of_growth hc (probe_covers cfg hc.spec.width) hl (growth_layer_ok hc hl.toLawful) { w with t := a } ha hb,
+    sub_spec_of_growth hc (probe_covers cfg hc.spec.width) hl (growth_layer_ok hc hl.toLawful) { w with t := a } ha hb⟩
 
 /-! ### single-set semantics -/
 
@@ -256,18 +272,20 @@ theorem remove_semantics (hc : CfgOk cfg) (hl : Lawful env H) (k : Nat) (w : Wor
       InvL cfg H w'.t ∧ (∀ x, x ∈ w'.t.elems ↔ x ∈ w.t.elems ∧ x.k ≠ k) :=
   remove_spec hc (probe_covers cfg hc.spec.width) hl k w h
 
-/-- `insert`, once its `reserve(1)` has returned (`GrewTo`; automatic when there is room, see
-    `insert_semantics_with_room`): an absent value is stored and `true` reported; a present value
+/-- `insert`, whenever its `reserve(1)` (after hashing) returns (automatic when there is room, see
+    `insert_semantics_with_room`; otherwise the allocator may refuse): an absent value is stored and `true` reported; a present value
     leaves the stored object in place and reports `false`. -/
-theorem insert_semantics_of_growth (hc : CfgOk cfg) (hl : Lawful env H) (k kid : Nat)
-    {w w1 : World} (hg : GrewTo cfg env H w w1) :
+theorem insert_semantics (hc : CfgOk cfg) (hl : Lawful env H) (k kid : Nat)
+    {w w1 : World} (h : InvL cfg H w.t) (hlay : w.t.LayoutOk cfg)
+    (hr : reserve cfg env 1 { w with hc := w.hc + 1 } = .ok w1) :
     (k ∉ keys w.t → ∃ w', Set.insert cfg env k kid w = .ok (true, w') ∧ InvL cfg H w'.t ∧
       ∀ x, x ∈ w'.t.elems ↔ x = Set.elemOf k kid ∨ x ∈ w.t.elems) ∧
     (k ∈ keys w.t → ∃ old w', old ∈ w.t.elems ∧ old.k = k ∧
       (Set.insert cfg env k kid w = .ok (false, w') ∨
         Set.insert cfg env k kid w = .panic "drop" w') ∧ InvL cfg H w'.t ∧
       ∀ x, x ∈ w'.t.elems ↔ x = { old with vid := 0, v := 0 } ∨ (x ∈ w.t.elems ∧ x.k ≠ k)) :=
-  insert_spec_of_growth hc (probe_covers cfg hc.spec.width) hl k kid hg
+  insert_spec_of_growth hc (probe_covers cfg hc.spec.width) hl k kid 
+    (GrewTo.of_growthOk (growth_layer_ok hc hl) h hlay hr)
 
 /-- The same without any growth hypothesis when the table has room (`growth_left > 0`). -/
 theorem insert_semantics_with_room (hc : CfgOk cfg) (hl : Lawful env H) (k kid : Nat) (w : World)
@@ -281,30 +299,35 @@ theorem insert_semantics_with_room (hc : CfgOk cfg) (hl : Lawful env H) (k kid :
   insert_spec_of_growth hc (probe_covers cfg hc.spec.width) hl k kid (GrewTo.of_room h hlay hroom)
 
 /-- `replace` stores the NEW object and returns the old one. -/
-theorem replace_semantics_of_growth (hc : CfgOk cfg) (hl : Lawful env H) (e : Elem)
-    {w w1 : World} (hg : GrewTo cfg env H w w1) :
+theorem replace_semantics (hc : CfgOk cfg) (hl : Lawful env H) (e : Elem)
+    {w w1 : World} (h : InvL cfg H w.t) (hlay : w.t.LayoutOk cfg)
+    (hr : reserve cfg env 1 { w with hc := w.hc + 1 } = .ok w1) :
     (e.k ∉ keys w.t → ∃ w', Set.replace cfg env e w = .ok (none, w') ∧ InvL cfg H w'.t ∧
       ∀ x, x ∈ w'.t.elems ↔ x = e ∨ x ∈ w.t.elems) ∧
     (e.k ∈ keys w.t → ∃ old w', old ∈ w.t.elems ∧ old.k = e.k ∧
       Set.replace cfg env e w = .ok (some old, w') ∧ InvL cfg H w'.t ∧
       ∀ x, x ∈ w'.t.elems ↔ x = e ∨ (x ∈ w.t.elems ∧ x.k ≠ e.k)) :=
-  replace_spec_of_growth hc (probe_covers cfg hc.spec.width) hl e hg
+  replace_spec_of_growth hc (probe_covers cfg hc.spec.width) hl e 
+    (GrewTo.of_growthOk (growth_layer_ok hc hl) h hlay hr)
 
 /-- `get_or_insert` keeps the OLD object for a present value. -/
-theorem get_or_insert_semantics_of_growth (hc : CfgOk cfg) (hl : Lawful env H) (e : Elem)
-    {w w1 : World} (hg : GrewTo cfg env H w w1) :
+theorem get_or_insert_semantics (hc : CfgOk cfg) (hl : Lawful env H) (e : Elem)
+    {w w1 : World} (h : InvL cfg H w.t) (hlay : w.t.LayoutOk cfg)
+    (hr : reserve cfg env 1 { w with hc := w.hc + 1 } = .ok w1) :
     (e.k ∉ keys w.t → ∃ w', Set.getOrInsert cfg env e w = .ok (e, w') ∧ InvL cfg H w'.t ∧
       ∀ x, x ∈ w'.t.elems ↔ x = e ∨ x ∈ w.t.elems) ∧
     (e.k ∈ keys w.t → ∃ old w', old ∈ w.t.elems ∧ old.k = e.k ∧
       (Set.getOrInsert cfg env e w = .ok (old, w') ∨
         Set.getOrInsert cfg env e w = .panic "drop" w') ∧ InvL cfg H w'.t ∧
       ∀ x, x ∈ w'.t.elems ↔ x ∈ w.t.elems) :=
-  getOrInsert_spec_of_growth hc (probe_covers cfg hc.spec.width) hl e hg
+  getOrInsert_spec_of_growth hc (probe_covers cfg hc.spec.width) hl e 
+    (GrewTo.of_growthOk (growth_layer_ok hc hl) h hlay hr)
 
 /-- `get_or_insert_with` refuses (panics, class `notequiv`) to store a value that is not equivalent
     to the probe; the set is unchanged. -/
-theorem get_or_insert_with_semantics_of_growth (hc : CfgOk cfg) (hl : Lawful env H)
-    (k k2 kid2 : Nat) {w w1 : World} (hg : GrewTo cfg env H w w1) :
+theorem get_or_insert_with_semantics (hc : CfgOk cfg) (hl : Lawful env H)
+    (k k2 kid2 : Nat) {w w1 : World} (h : InvL cfg H w.t) (hlay : w.t.LayoutOk cfg)
+    (hr : reserve cfg env 1 { w with hc := w.hc + 1 } = .ok w1) :
     (k ∈ keys w.t → ∃ old w', old ∈ w.t.elems ∧ old.k = k ∧
       Set.getOrInsertWith cfg env k k2 kid2 w = .ok (old, w') ∧ InvL cfg H w'.t ∧
       ∀ x, x ∈ w'.t.elems ↔ x ∈ w.t.elems) ∧
@@ -314,7 +337,8 @@ theorem get_or_insert_with_semantics_of_growth (hc : CfgOk cfg) (hl : Lawful env
     (k ∉ keys w.t → k2 ≠ k → ∃ w',
       Set.getOrInsertWith cfg env k k2 kid2 w = .panic "notequiv" w' ∧ InvL cfg H w'.t ∧
       ∀ x, x ∈ w'.t.elems ↔ x ∈ w.t.elems) :=
-  getOrInsertWith_spec_of_growth hc (probe_covers cfg hc.spec.width) hl k k2 kid2 hg
+  getOrInsertWith_spec_of_growth hc (probe_covers cfg hc.spec.width) hl k k2 kid2 
+    (GrewTo.of_growthOk (growth_layer_ok hc hl) h hlay hr)
 
 /-- With room in the table the refusal needs no growth hypothesis at all. -/
 theorem get_or_insert_with_refuses (hc : CfgOk cfg) (hl : Lawful env H) (k k2 kid2 : Nat)
@@ -347,15 +371,16 @@ example : ssOut (Set.union ssCfg ssEnv ssB { t := ssA }) =
 #print axioms eq_symmetric
 #print axioms bitand_assign_exact
 #print axioms sub_assign_exact
-#print axioms bitor_assign_exact_of_growth
-#print axioms bitxor_assign_exact_of_growth
-#print axioms operator_forms_exact_of_growth
+#print axioms bitor_assign_exact
+#print axioms bitxor_assign_exact
+#print axioms growth_layer_ok
+#print axioms operator_forms_exact
 #print axioms take_semantics
 #print axioms remove_semantics
-#print axioms insert_semantics_of_growth
+#print axioms insert_semantics
 #print axioms insert_semantics_with_room
-#print axioms replace_semantics_of_growth
-#print axioms get_or_insert_semantics_of_growth
-#print axioms get_or_insert_with_semantics_of_growth
+#print axioms replace_semantics
+#print axioms get_or_insert_semantics
+#print axioms get_or_insert_with_semantics
 #print axioms get_or_insert_with_refuses
 end Hb.C07
